@@ -7,5 +7,6 @@ CONSTANTS
   MaxLen = 5
   MaxDepth = 2
   CheckDev = {"assign_always_local"}
+  FreshOnly = FALSE
 INVARIANTS LawsHold
 CHECK_DEADLOCK FALSE
